@@ -593,38 +593,41 @@ fn c17(tier: Tier, seed: u64) -> i32 {
 // ---------------------------------------------------------------------------
 // replay
 
-pub fn replay(path: &str) -> i32 {
+/// Run the case stored in a replay file once (bypassing proptest and the
+/// decoders) and return the findings of its property's oracles.
+pub fn replay_findings(path: &str, verbose: bool) -> Result<(String, Vec<Finding>), i32> {
 	let txt = match std::fs::read_to_string(path) {
 		Ok(t) => t,
 		Err(e) => {
 			eprintln!("cannot read {path}: {e}");
-			return 2;
+			return Err(2);
 		}
 	};
 	let doc: Value = match serde_json::from_str(&txt) {
 		Ok(v) => v,
 		Err(e) => {
 			eprintln!("cannot parse {path}: {e}");
-			return 2;
+			return Err(2);
 		}
 	};
 	let prop = doc["property"].as_str().unwrap_or("").to_string();
 	let c = &doc["case"];
 	let engine = c["engine"].as_str().unwrap_or("");
 	let opts = opts_from(&c["opts"]);
-	let known = KnownFindings::load();
 	let findings: Vec<Finding> = match engine {
 		"seq" => {
 			let case: SeqCase = match serde_json::from_value(c["case"].clone()) {
 				Ok(c) => c,
 				Err(e) => {
 					eprintln!("bad seq case: {e}");
-					return 2;
+					return Err(2);
 				}
 			};
 			let r = run_seq(&case, opts);
-			for l in &r.trace {
-				println!("  {l}");
+			if verbose {
+				for l in &r.trace {
+					println!("  {l}");
+				}
 			}
 			let mut f = mine(&prop, &r);
 			if prop == "C07" {
@@ -643,12 +646,14 @@ pub fn replay(path: &str) -> i32 {
 				Ok(c) => c,
 				Err(e) => {
 					eprintln!("bad conc case: {e}");
-					return 2;
+					return Err(2);
 				}
 			};
 			let r = run_conc(&case, Opts { conc: true, ..opts });
-			for l in &r.trace {
-				println!("  {l}");
+			if verbose {
+				for l in &r.trace {
+					println!("  {l}");
+				}
 			}
 			let mut f = mine(&prop, &r);
 			f.extend(post_findings(&prop, &AnyCase::Conc(case), &r));
@@ -659,7 +664,7 @@ pub fn replay(path: &str) -> i32 {
 				Ok(p) => p,
 				Err(e) => {
 					eprintln!("bad plan: {e}");
-					return 2;
+					return Err(2);
 				}
 			};
 			crate::drops::run_plan(&plan).findings
@@ -669,30 +674,41 @@ pub fn replay(path: &str) -> i32 {
 				Ok(p) => p,
 				Err(e) => {
 					eprintln!("bad types pair: {e}");
-					return 2;
+					return Err(2);
 				}
 			};
 			let tc = match crate::tyeng::Toolchain::locate() {
 				Ok(t) => t,
 				Err(e) => {
 					eprintln!("TYPES engine: {e}");
-					return 2;
+					return Err(2);
 				}
 			};
 			let rep = types_report(&tc, &pair, false);
 			tc.cleanup();
 			if let Some(i) = rep.inconclusive {
-				println!("INCONCLUSIVE: {i}");
-				return 2;
+				eprintln!("INCONCLUSIVE: {i}");
+				return Err(2);
 			}
-			println!("--- offending program ---\n{}", pair.offending);
+			if verbose {
+				println!("--- offending program ---\n{}", pair.offending);
+			}
 			rep.violations
 		}
 		_ => {
 			eprintln!("unknown engine in replay file");
-			return 2;
+			return Err(2);
 		}
 	};
+	Ok((prop, findings))
+}
+
+pub fn replay(path: &str) -> i32 {
+	let (prop, findings) = match replay_findings(path, true) {
+		Ok(x) => x,
+		Err(c) => return c,
+	};
+	let known = KnownFindings::load();
 	let mut code = 0;
 	for f in &findings {
 		let p = if f.prop == "PANIC" { prop.as_str() } else { f.prop };
